@@ -40,8 +40,12 @@ func Register[S any, PS interface {
 	Scenario
 }](id string, gen func(seed uint64, tier string) PS, run func(e *Env, s PS)) {
 	registry[id] = &propEntry{
-		id:  id,
-		gen: func(seed uint64, tier string) Scenario { return gen(seed, tier) },
+		id: id,
+		gen: func(seed uint64, tier string) Scenario {
+			s := gen(seed, tier)
+			applyPCT(s.SchedP(), seed)
+			return s
+		},
 		dec: func(raw json.RawMessage) (Scenario, error) {
 			var s S
 			if err := json.Unmarshal(raw, &s); err != nil {
@@ -57,6 +61,25 @@ func Register[S any, PS interface {
 		},
 		run: func(e *Env, s Scenario) { run(e, s.(PS)) },
 	}
+}
+
+// PCTPercent of the generated scenarios use PCT-style priority scheduling
+// (see Sched.PCTDepth) instead of uniform random picks; a function of the seed
+// only. Uniform picks advance every runnable goroutine at the same rate, so a
+// bug that needs one goroutine to run far ahead while others sit inside a
+// window one scheduling point wide is practically unreachable for them.
+var PCTPercent = 25
+
+func applyPCT(s *Sched, seed uint64) {
+	if PCTPercent <= 0 || s.PCTDepth != 0 || s.Decisions != "" {
+		return
+	}
+	h := Mix(seed, 0x9c7)
+	if int(h%100) >= PCTPercent {
+		return
+	}
+	s.PCTDepth = 1 + uint32((h>>8)%3)
+	s.PCTSteps = []uint32{50, 300, 2000, 20000, 200000}[(h>>16)%5]
 }
 
 // Request is what cmd/simcheck sends (env SIM_REQ = path of a JSON file).
